@@ -756,3 +756,375 @@ Proof.
   - exists []. replace n with (m + (n - m))%nat by lia. rewrite citer_add.
     rewrite (citer_term _ _ _ _ _ U2). reflexivity.
 Qed.
+
+(* ------------------------------------------------------------------ *)
+(** * Programs that never interrupt a run *)
+
+Definition calm_action (st : strategy) (a : action) : bool :=
+  match a with
+  | ACmd CStop => false
+  | AFail => match st with SWarnPause => false | _ => true end
+  | _ => true
+  end.
+
+(* no stop() from a handler, and no failing handler under WARN_AND_PAUSE *)
+Definition calm (st : strategy) (p : program) : Prop :=
+  forall h, forallb (calm_action st) (body p h) = true.
+
+Lemma inner_cmd_rs md s c : (match c with CStop => False | _ => True end) -> rs (inner_cmd md s c) = rs s.
+Proof. intros H. unfold inner_cmd. destruct md, c; try contradiction; destruct (running s); reflexivity. Qed.
+
+Lemma exec_action_rs md s a :
+  calm_action (strat s) a = true ->
+  rs (fst (exec_action md s a)) = rs s
+  /\ (snd (exec_action md s a) = true -> strat s <> SWarnPause).
+Proof.
+  intros H. destruct a; cbn [exec_action fst snd]; try (split; [|discriminate]).
+  - unfold do_sched. destruct (sched_time s m); reflexivity.
+  - unfold do_cancel. destruct (nth_error (created s) k); auto. destruct (ev_mem e (pend s)); reflexivity.
+  - split; auto. intros _ Q. cbn [calm_action] in H. rewrite Q in H. discriminate.
+  - apply inner_cmd_rs. destruct c; auto. discriminate.
+  - reflexivity.
+Qed.
+
+Lemma exec_actions_rs md acts : forall s,
+  forallb (calm_action (strat s)) acts = true ->
+  rs (fst (exec_actions md s acts)) = rs s
+  /\ (snd (exec_actions md s acts) = true -> strat s <> SWarnPause).
+Proof.
+  induction acts as [|a r IH]; intros s H; cbn [exec_actions fst snd]; [split; [auto|discriminate]|].
+  cbn [forallb] in H. apply andb_true_iff in H. destruct H as [Ha Hr].
+  destruct (exec_action_rs md s a Ha) as [R1 F1].
+  pose proof (fr_strat _ _ (hs_frame _ _ (exec_action_hstep md s a))) as St.
+  destruct (exec_action md s a) as [s1 f]. cbn [fst snd] in *.
+  destruct f; cbn [fst snd]; [split; auto|].
+  rewrite <- St in Hr. destruct (IH s1 Hr) as [R2 F2]. split; [congruence|]. rewrite <- St. exact F2.
+Qed.
+
+Lemma take_event_calm p s e r : calm (strat s) p -> rs (take_event p s e r) = rs s.
+Proof.
+  intros Hc. unfold take_event, exec_event.
+  set (s2 := set_clock (ev_time e) _).
+  assert (S2 : strat s2 = strat s /\ rs s2 = rs s).
+  { unfold s2. ssimpl. destruct (ev_time e =? clock s); ssimpl; auto. }
+  destruct S2 as [St Rs].
+  destruct (ev_h e) as [|h].
+  - ssimpl. exact Rs.
+  - set (s1 := set_trace _ s2).
+    assert (H1 : forallb (calm_action (strat s1)) (body p h) = true).
+    { unfold s1. ssimpl. rewrite St. apply Hc. }
+    destruct (exec_actions_rs InRun (body p h) s1 H1) as [R F].
+    pose proof (fr_strat _ _ (hs_frame _ _ (exec_actions_hstep InRun (body p h) s1))) as St3.
+    destruct (exec_actions InRun s1 (body p h)) as [s3 f]. cbn [fst snd] in *.
+    destruct f.
+    + destruct (strat s3) eqn:Q; try (rewrite R; unfold s1; ssimpl; exact Rs).
+      exfalso. apply (F eq_refl). congruence.
+    + rewrite R. unfold s1. ssimpl. exact Rs.
+Qed.
+
+Lemma runs_calm p s evs s1 : calm (strat s) p -> runs p s evs s1 -> running s = true -> running s1 = true.
+Proof.
+  intros Hc H. induction H as [s|s e r evs s' R Hp B H IH]; auto. intros _.
+  destruct (took_bound _ _ _ _ (take_event_took p s e r Hp)) as (_&_&_&_&Ts&_).
+  apply IH.
+  - rewrite Ts. exact Hc.
+  - unfold running. rewrite (take_event_calm p s e r Hc). exact R.
+Qed.
+
+(** Under a calm program a run that did not exhaust its fuel left through the
+    bound test: the clock is the bound and nothing within the horizon is left. *)
+Lemma calm_run_exit p fuel s :
+  calm (strat s) p -> running s = true -> flag (run_loop fuel p s) = false ->
+  exists evs s1, runs p s evs s1 /\ head_beyond s1 /\ run_loop fuel p s = stop_at_bound s1.
+Proof.
+  intros Hc R Hf. destruct (run_loop_runs p fuel s) as [evs [s1 [H1 H2]]].
+  exists evs, s1. pose proof (runs_calm p s evs s1 Hc H1 R) as R1.
+  destruct H2 as [Q E|Q HB E|Q E].
+  - congruence.
+  - auto.
+  - rewrite E in Hf. ssimpl. discriminate.
+Qed.
+
+Lemma beyondb_false b i e :
+  beyondb b i e = false <-> (if i then ev_time e <= b else ev_time e < b).
+Proof.
+  destruct (beyondb b i e) eqn:B.
+  - apply beyondb_true in B. split; [discriminate|]. destruct i; intros; destruct B as [B|[B1 B2]]; try lia; discriminate.
+  - split; auto. intros _.
+    assert (N : ~ (b < ev_time e \/ ev_time e = b /\ i = false)) by (intros Q; apply beyondb_true in Q; congruence).
+    destruct i; [lia|]. destruct (Z.lt_trichotomy (ev_time e) b) as [Q|[Q|Q]]; auto; exfalso; apply N; auto.
+Qed.
+
+(* ------------------------------------------------------------------ *)
+(** * Bounded runs *)
+
+Lemma entered_inv s b i a : Entered s b i a -> Inv s -> Inv a.
+Proof. intros En. apply Inv_core; [apply (en_core _ _ _ _ En)|symmetry; apply (en_clock _ _ _ _ En)]. Qed.
+
+Lemma entered_acct s b i a : Entered s b i a -> Acct s -> Acct a.
+Proof. intros En. apply Acct_core. apply (en_core _ _ _ _ En). Qed.
+
+(** run_up_to(t) / run_up_to_including(t) / start (bound = end, inclusive) on
+    a program that does not interrupt the run: the events executed are exactly
+    the pending or newly scheduled events that were not cancelled while pending
+    and whose time is earlier than the bound (not later, for the inclusive
+    variants); the clock is left at the bound; what stays pending is at or
+    after the bound. *)
+Theorem bounded_run_exact p fuel s bz i :
+  Inv s -> Acct s -> worker s = WAlive -> calm (strat s) p ->
+  start_checks s = true -> clock s <= bz ->
+  let s' := fst (do_start fuel p s (TNum bz) i) in
+  let b := fst (clamp s bz i) in let ic := snd (clamp s bz i) in
+  flag s' = false ->
+  exists evs newc,
+    executed s' = rev evs ++ executed s
+    /\ created s' = created s ++ newc
+    /\ clock s' = b
+    /\ (forall e, In e evs -> In e (pend s) \/ In e newc)
+    /\ (forall e, In e (pend s) \/ In e newc ->
+          (In e evs <-> (~ In e (cancelled s') /\ (if ic then ev_time e <= b else ev_time e < b))))
+    /\ (forall e, In e (pend s') -> if ic then b < ev_time e else b <= ev_time e).
+Proof.
+  intros HI HA W Hc Ck Le s' b ic Hf.
+  destruct (do_start_shape p fuel s bz i Ck Le W) as [a [En Sh]]. unfold s' in *. rewrite Sh in *. cbn [fst] in *.
+  fold b ic in En.
+  destruct (after_loop_facts (run_loop fuel p a)) as (C&Ck'&_&_&_&Fl&_). rewrite Fl in Hf.
+  assert (Hca : calm (strat a) p) by (rewrite (en_strat _ _ _ _ En); exact Hc).
+  destruct (calm_run_exit p fuel a Hca (en_rs _ _ _ _ En) Hf) as [evs [s1 (H1&HB&E)]].
+  destruct (runs_complete p a evs s1 (entered_inv _ _ _ _ En HI) (entered_acct _ _ _ _ En HA) H1 HB)
+    as [newc (A1&A2&A3&A4&A5)].
+  pose proof (stop_at_bound_core s1) as C1. rewrite <- E in C1.
+  pose proof (core_eq_trans _ _ _ C1 C) as C2.
+  destruct C2 as (Cp&_&Cc&Ct&Cx&_). destruct (en_core _ _ _ _ En) as (Dp&_&Dc&Dt&Dx&_).
+  assert (Eb : forall e, beyond a e = beyondb b ic e).
+  { intros e. rewrite beyond_beyondb, (en_bound _ _ _ _ En), (en_incl _ _ _ _ En). reflexivity. }
+  exists evs, newc. unfold executed in *. rewrite <- Ct, <- Cc, <- Cx, <- Cp, Dt, Dc, Dp.
+  split; [exact A1|]. split; [exact A2|]. split.
+  { rewrite Ck', E. destruct (stop_at_bound_fields s1) as (K&_). rewrite K.
+    destruct (rf_bound _ _ _ (runs_facts _ _ _ _ H1)) as (Fb&_). rewrite Fb. apply (en_bound _ _ _ _ En). }
+  split; [exact A3|]. split.
+  - intros e Hin. rewrite (A4 e Hin), Eb, beyondb_false. reflexivity.
+  - intros e He. specialize (A5 e He). rewrite Eb in A5. apply beyondb_true in A5.
+    destruct ic; destruct A5 as [Q|[Q1 Q2]]; try lia; discriminate.
+Qed.
+
+Lemma run_loop_clock_le p fuel s : clock s <= bound s -> clock (run_loop fuel p s) <= bound s.
+Proof.
+  intros L. destruct (run_loop_runs p fuel s) as [evs [s1 [H1 H2]]].
+  pose proof (runs_facts _ _ _ _ H1) as F. pose proof (rf_clock _ _ _ F L) as K.
+  destruct (rf_bound _ _ _ F) as (Fb&_).
+  destruct H2 as [Q E|Q HB E|Q E]; rewrite E; auto.
+  destruct (stop_at_bound_fields s1) as (A&_). rewrite A. lia.
+Qed.
+
+(** Unless the bound reached the replication end the simulator stays
+    resumable: replication still STARTED, run state STOPPED, worker alive,
+    clock not past the bound, and a further start is accepted. *)
+Theorem resumable p fuel s bz i :
+  worker s = WAlive -> start_checks s = true -> clock s <= bz -> bz < end_time s ->
+  let s' := fst (do_start fuel p s (TNum bz) i) in
+  ps s' = PStarted /\ Live s' /\ clock s' <= bz /\ start_checks s' = true.
+Proof.
+  intros W Ck Le Lt s'.
+  destruct (do_start_shape p fuel s bz i Ck Le W) as [a [En Sh]]. unfold s'. rewrite Sh. cbn [fst].
+  assert (Cl : clamp s bz i = (bz, i)).
+  { unfold clamp. destruct (Z.gtb_spec bz (end_time s)); [lia|reflexivity]. }
+  rewrite Cl in En. cbn [fst snd] in En.
+  destruct (started_quiet p fuel s bz i a En ltac:(lia)) as [[P L]|[_ [_ Q]]]; [|lia].
+  set (lb := run_loop fuel p a) in *.
+  destruct (after_loop_facts lb) as (C&Ck'&_&_&_&_&Rn).
+  assert (K : clock (after_loop lb) <= bz).
+  { rewrite Ck'. unfold lb. rewrite <- (en_bound _ _ _ _ En). apply run_loop_clock_le.
+    rewrite (en_bound _ _ _ _ En), (en_clock _ _ _ _ En). exact Le. }
+  split; [exact P|]. split; [exact L|]. split; [exact K|].
+  assert (Ee : end_time (after_loop lb) = end_time s).
+  { rewrite <- (end_time_core _ _ C). unfold end_time, lb.
+    destruct (run_loop_fixed p fuel a) as (_&_&Fr&_). rewrite Fr. apply (entered_end _ _ _ _ En). }
+  unfold start_checks. rewrite Rn, P, Ee. cbn [negb andb].
+  assert (Hrep : rep (after_loop lb) = rep s).
+  { destruct C as (_&_&_&_&_&Cr). rewrite <- Cr. unfold lb.
+    destruct (run_loop_fixed p fuel a) as (_&_&Fr&_). rewrite Fr.
+    destruct (en_core _ _ _ _ En) as (_&_&_&_&_&Dr). auto. }
+  rewrite Hrep.
+  assert (Hr : exists r, rep s = Some r).
+  { unfold start_checks in Ck. destruct (rep s); [eauto|]. rewrite !andb_false_r in Ck. discriminate. }
+  destruct Hr as [r ->].
+  assert (Hrs : rs (after_loop lb) = RStopped).
+  { unfold after_loop, worker_ending. ssimpl.
+    destruct (run_loop_ps p fuel a) as [Q|Q]; fold lb in Q.
+    - rewrite Q, (en_ps _ _ _ _ En). reflexivity.
+    - exfalso. destruct (after_loop_ps lb) as [P1 _]. destruct (P1 Q) as [P2 _]. congruence. }
+  rewrite Hrs. cbn [andb]. apply Z.ltb_lt. lia.
+Qed.
+
+(* ------------------------------------------------------------------ *)
+(** * Nothing later than the replication end *)
+
+Lemma trace_ext_le s s' hi :
+  Mono s s' -> clock s' <= hi ->
+  exists new, trace s' = new ++ trace s /\ Forall (fun ec => snd ec <= hi) new.
+Proof.
+  intros [_ [new (E&F&_)]] L. exists new. split; auto.
+  eapply Forall_impl; [|exact F]. cbn. intros; lia.
+Qed.
+
+Lemma trace_same s s' hi :
+  trace s' = trace s -> exists new, trace s' = new ++ trace s /\ Forall (fun ec : ev * Z => snd ec <= hi) new.
+Proof. intros E. exists []. split; auto. Qed.
+
+Lemma do_start_clock_le p fuel s b i :
+  snd (do_start fuel p s b i) = ResOk -> clock (fst (do_start fuel p s b i)) <= end_time s.
+Proof.
+  intros Ok. destruct (do_start_accepted _ _ _ _ _ Ok) as [bz [-> [Ck Le]]].
+  destruct (start_checks_facts s Ck) as (_&_&Lt).
+  destruct (worker s) eqn:W.
+  2: { destruct (do_start_shape p fuel s bz i Ck Le W) as [a [En Sh]]. rewrite Sh. cbn [fst].
+       destruct (after_loop_facts (run_loop fuel p a)) as (_&K&_). rewrite K.
+       pose proof (clamp_le s bz i) as CL. rewrite <- (en_bound _ _ _ _ En) in CL.
+       eapply Z.le_trans; [apply run_loop_clock_le|exact CL].
+       rewrite (en_clock _ _ _ _ En), (en_bound _ _ _ _ En).
+       unfold clamp. destruct (Z.gtb_spec bz (end_time s)); cbn [fst]; lia. }
+  all: unfold do_start; rewrite Ck; destruct (Z.ltb_spec bz (clock s)); [lia|];
+       destruct (bz >? end_time s); cbv zeta; cbn [fst]; unfold worker_run;
+       match goal with |- context [worker ?x] => replace (worker x) with (worker s)
+         by (ssimpl; destruct (ps s); reflexivity) end; rewrite W; ssimpl; destruct (ps s); ssimpl; lia.
+Qed.
+
+Lemma do_step_clock_le p s :
+  snd (do_step p s) = ResOk -> clock (fst (do_step p s)) <= end_time s.
+Proof.
+  unfold do_step. destruct (step_checks s) eqn:Ck; [|discriminate]. intros _. cbv zeta. cbn [fst].
+  assert (Lt : clock s < end_time s).
+  { unfold step_checks in Ck. apply andb_true_iff in Ck. destruct Ck as [_ Ck]. apply Z.ltb_lt; auto. }
+  set (s1 := match ps s with PInit => _ | _ => s end).
+  set (s2 := emit (NStart (clock s1)) (set_rs RStarted s1)).
+  assert (K2 : clock s2 = clock s /\ end_time s2 = end_time s)
+    by (unfold s2, s1, end_time; destruct (ps s); ssimpl; auto).
+  destruct K2 as [K2 E2].
+  set (s3 := match pend s2 with [] => s2 | _ => _ end).
+  change (clock s3 <= end_time s).
+  unfold s3. destruct (pend s2) as [|e r] eqn:Hp; [lia|]. rewrite E2.
+  destruct (Z.gtb_spec (ev_time e) (end_time s)); [lia|].
+  rewrite (took_clock _ _ _ _ (step_event_took p s2 e r Hp)). lia.
+Qed.
+
+Lemma do_init_trace p s r : trace (fst (do_init p s r)) = trace s.
+Proof.
+  unfold do_init. destruct (running s); auto.
+  set (s2 := set_created [] _).
+  assert (T2 : trace s2 = trace s) by (unfold s2; destruct (worker (set_pend [] s)); reflexivity).
+  pose proof (fr_trace _ _ (hs_frame _ _ (exec_actions_hstep InConstruct (body p 0) s2))) as T3.
+  destruct (exec_actions InConstruct s2 (body p 0)) as [s3 failed]. cbn [fst] in *.
+  set (s5 := set_ps PInit _).
+  assert (T5 : trace s5 = trace s3) by (unfold s5; destruct failed; reflexivity).
+  destruct (r_warm r <? clock s5); ssimpl; congruence.
+Qed.
+
+Lemma do_end_repl_trace p fuel s : trace (fst (do_end_repl fuel p s)) = trace s.
+Proof.
+  unfold do_end_repl. destruct (ps s); auto. cbn [fst].
+  set (s2 := set_pend [] _).
+  assert (T2 : trace s2 = trace s) by (unfold s2; destruct (clock s <? end_time s); reflexivity).
+  unfold worker_run. destruct (worker s2); auto.
+Qed.
+
+(** No command whatsoever executes an event later than the replication end:
+    whatever a command adds to the executed-event log carries a clock not after
+    the end. *)
+Theorem never_past_end p fuel s c :
+  Inv s ->
+  exists new, trace (fst (do_cmd fuel p s c)) = new ++ trace s
+              /\ Forall (fun ec => snd ec <= end_time s) new.
+Proof.
+  intros HI.
+  assert (St : forall b i, exists new, trace (fst (do_start fuel p s b i)) = new ++ trace s
+                                    /\ Forall (fun ec => snd ec <= end_time s) new).
+  { intros b i. destruct (res_cases (snd (do_start fuel p s b i))) as [Ok|Rf].
+    - apply trace_ext_le; [apply (cf_mono _ _ (do_start_facts p fuel s b i) HI)|apply do_start_clock_le; auto].
+    - apply trace_same. rewrite (do_start_refused _ _ _ _ _ Rf). reflexivity. }
+  destruct c; cbn [do_cmd fst]; try (apply trace_same; reflexivity); auto.
+  - apply trace_same. apply do_init_trace.
+  - destruct (rep s); [apply St|apply trace_same; reflexivity].
+  - destruct (res_cases (snd (do_step p s))) as [Ok|Rf].
+    + apply trace_ext_le; [apply (cf_mono _ _ (do_step_facts p s) HI)|apply do_step_clock_le; auto].
+    + apply trace_same. unfold do_step in *. destruct (step_checks s); [discriminate|reflexivity].
+  - apply trace_same. destruct (running s); reflexivity.
+  - apply trace_same. apply do_end_repl_trace.
+Qed.
+
+(* ------------------------------------------------------------------ *)
+(** * Splitting a bounded run *)
+
+Definition enter (b : Z) (i : bool) (s : sim) : sim := set_rs RStarted (set_incl i (set_bound b s)).
+Definition run_until (fuel : nat) (p : program) (b : Z) (i : bool) (s : sim) : sim :=
+  run_loop fuel p (enter b i s).
+
+Lemma enter_core b i s : core_eq s (enter b i s).
+Proof. unfold enter, core_eq; ssimpl; auto 10. Qed.
+
+(* a calm run that did not exhaust its fuel: where it stands *)
+Lemma run_until_calm p fuel b i s :
+  calm (strat s) p -> flag (run_until fuel p b i s) = false ->
+  let s' := run_until fuel p b i s in
+  clock s' = b /\ strat s' = strat s
+  /\ exists n, core_eq s' (citer n b i p s) /\ cterm b i (citer n b i p s).
+Proof.
+  intros Hc Hf. cbv zeta. unfold run_until in *.
+  assert (Hc' : calm (strat (enter b i s)) p) by exact Hc.
+  destruct (calm_run_exit p fuel (enter b i s) Hc' eq_refl Hf) as [evs [s1 (H1&HB&E)]].
+  pose proof (runs_citer _ _ _ _ H1) as E1. change (bound (enter b i s)) with b in E1. change (incl (enter b i s)) with i in E1.
+  destruct (citer_fixed (length evs) b i p (enter b i s)) as (Fb&Fi&_&_&Fs&_).
+  rewrite <- E1 in Fb, Fi, Fs.
+  destruct (stop_at_bound_fields s1) as (A&_&_&_&_&S&_).
+  rewrite E. split; [rewrite A; exact Fb|]. split; [rewrite S; exact Fs|].
+  exists (length evs).
+  assert (Cc : core_eq s1 (citer (length evs) b i p s)).
+  { rewrite E1. apply citer_core; [apply prog_equiv_refl|apply core_eq_sym, enter_core]. }
+  split.
+  - eapply core_eq_trans; [apply core_eq_sym, stop_at_bound_core|exact Cc].
+  - eapply cterm_core; [exact Cc|]. apply (proj1 (head_beyond_cterm s1)) in HB.
+    rewrite Fb, Fi in HB. exact HB.
+Qed.
+
+(** run_until b2 (run_until b1 s) = run_until b2 s for b1 <= b2 (on what the
+    executed-event semantics depends on, and on the clock), for programs that
+    do not interrupt runs and whenever no run exhausted its fuel. *)
+Theorem run_split p f1 f2 f3 b1 i1 b2 i2 s :
+  calm (strat s) p -> hz_le b1 i1 b2 i2 ->
+  let s1 := run_until f1 p b1 i1 s in
+  let s2 := run_until f2 p b2 i2 s1 in
+  let s3 := run_until f3 p b2 i2 s in
+  flag s1 = false -> flag s2 = false -> flag s3 = false ->
+  core_eq s2 s3 /\ clock s2 = clock s3.
+Proof.
+  intros Hc HZ s1 s2 s3 F1 F2 F3.
+  destruct (run_until_calm p f1 b1 i1 s Hc F1) as (K1&S1&n1&C1&T1). fold s1 in K1, S1, C1.
+  assert (Hc1 : calm (strat s1) p) by (rewrite S1; exact Hc).
+  destruct (run_until_calm p f2 b2 i2 s1 Hc1 F2) as (K2&_&n2&C2&T2). fold s2 in K2, C2.
+  destruct (run_until_calm p f3 b2 i2 s Hc F3) as (K3&_&n3&C3&T3). fold s3 in K3, C3.
+  split; [|congruence].
+  destruct (citer_widen n1 b1 i1 b2 i2 p HZ s) as [m1 [_ Em]]. rewrite Em in C1.
+  assert (C2' : core_eq (citer n2 b2 i2 p s1) (citer (m1 + n2) b2 i2 p s)).
+  { rewrite citer_add. apply citer_core; [apply prog_equiv_refl|exact C1]. }
+  pose proof (cterm_core _ _ _ _ C2' T2) as T2'.
+  pose proof (citer_term_unique _ _ _ _ p s T2' T3) as U.
+  eapply core_eq_trans; [exact C2|]. eapply core_eq_trans; [exact C2'|]. rewrite U. apply core_eq_sym; exact C3.
+Qed.
+
+(* ------------------------------------------------------------------ *)
+(** * After initialize *)
+
+Lemma do_init_live p s r : running s = false -> Live (fst (do_init p s r)).
+Proof.
+  intros R. unfold do_init. rewrite R.
+  set (s2 := set_created [] _).
+  assert (W2 : worker s2 = WAlive) by (unfold s2; destruct (worker (set_pend [] s)); reflexivity).
+  pose proof (hs_frame _ _ (exec_actions_hstep InConstruct (body p 0) s2)) as F.
+  destruct (exec_actions InConstruct s2 (body p 0)) as [s3 failed]. cbn [fst] in *.
+  pose proof (fr_worker _ _ F) as W3.
+  set (s5 := set_ps PInit _).
+  assert (H5 : running s5 = false /\ ps s5 = PInit /\ worker s5 = WAlive).
+  { unfold s5, running. destruct failed; ssimpl; repeat split; congruence. }
+  destruct H5 as (A&B&C).
+  destruct (r_warm r <? clock s5); unfold Live, running in *; ssimpl; auto.
+Qed.
